@@ -245,6 +245,7 @@ EXTRA = _RTR + [
      r'(self\.customer_as\.encode\(\),\s*encode::sequence\(&self\.provider_as_set\.captured\))', lambda m: True, ['C05']),
     ('mftEncodeShape', 'src/repository/manifest.rs',
      r'(self\.manifest_number\.encode\(\),\s*self\.this_update\.encode_generalized_time\(\),\s*self\.next_update\.encode_generalized_time\(\),\s*self\.file_hash_alg\.encode_oid\(\),\s*encode::sequence\(\s*&self\.file_list\s*\))', lambda m: True, ['C05']),
+    ('aspaObjMaxLen', 'src/repository/aspa.rs', r'impl ProviderAsSet \{[\s\S]*?const MAX_LEN: usize = (\d+);', 'nat', ['C05', 'C02']),
     # ---- C04
     ('roaIterUsesTake', 'src/repository/roa.rs',
      r'(impl Iterator for RoaIpAddressIter<\'_> \{[\s\S]*?RoaIpAddress::take_opt_from_unchecked\(cons\)[\s\S]*?fn skip_opt_in<[\s\S]*?let addr = match Self::take_opt_from_unchecked\(cons\)\? \{)', lambda m: True, ['C04']),
